@@ -198,8 +198,8 @@ def gen_sig(rng, idx: int, force=None):
         # spox does not insist on "the variadic field comes last" either: first / middle / last
         pos = rng.choice([len(kinds), len(kinds), 0, rng.randrange(0, len(kinds) + 1)])
         kinds.insert(pos, "variadic")
-    if not kinds:
-        kinds = ["single"]
+    if not kinds and rng.random() < 0.5:
+        kinds = ["single"]  # else: an operator without inputs (a generator), like Constant / RandomNormal
     inputs = [(f"i{j}", k) for j, k in enumerate(kinds)]
     okinds = ["single"] * rng.randrange(1, 3) + (["optional"] if rng.random() < 0.2 else [])
     if rng.random() < 0.35:
